@@ -310,6 +310,10 @@ def handle (st : DState) (line : String) : DState × String :=
     match SeqText.parse (parseNats bytes) with
     | some (es, rest) => (st, " ".intercalate (es.map showElem) ++ "|" ++ showNats rest)
     | none => (st, "none")
+  | ["copyuid", srcs, dsts] =>
+    -- the pairs a client reads off COPYUID when the copies (src_i, dst_i) were made: both sides sorted independently
+    let a := CopyUid.announce ((parseNats srcs).zip (parseNats dsts))
+    (st, showNats (a.map Prod.fst) ++ "|" ++ showNats (a.map Prod.snd))
   | ["appendcancel", before, lits] =>
     -- lits: m<k> a message of k bytes, e the empty literal; before: number of messages in the mailbox
     let ls : List AppendCancel.Lit := if lits == "-" then [] else (lits.splitOn ",").map (fun t => if t == "e" then .empty else .msg (List.replicate ((t.drop 1).toString.toNat?.getD 0) 0))
